@@ -2367,4 +2367,62 @@ M("s16-quiet-any-form", "C05", "quiet", "src/compile.rs",
   """        if input_gates.iter().all(|bits| *bits == 0) {""",
   """        if !input_gates.iter().any(|bits| *bits > 0) {""", "behaviour-preserving: the same test written with any()")
 REVERT("revert-output-registers-written", "C16", "fire G2", "b30cfcc", "pre-fix tree: output registers only bounds-checked")
+# ---------------------------------------------------------------- eleventh seed batch as mutants
+M("e17-assign-writes-every-scope", "C14", "fire E17", "src/env.rs",
+  """            if let Entry::Occupied(mut e) = scope.entry(identifier.clone()) {
+                e.insert(binding);
+                return;
+            }""",
+  """            if let Entry::Occupied(mut e) = scope.entry(identifier.clone()) {
+                e.insert(binding.clone());
+            }""", "seed C14-k (shape): the assignment is written into every enclosing binding of the name; the panic for unknown names is unconditional, but the hit no longer returns")
+M("e17-get-outermost-first", "C14", "fire E17", "src/env.rs",
+  """        for bindings in self.0.iter().rev() {
+            if let Some(v) = bindings.get(identifier) {""",
+  """        for bindings in self.0.iter() {
+            if let Some(v) = bindings.get(identifier) {""", "look-up finds the outermost binding of a name first")
+M("e16-mul-by-zero-shortcut", "C14", "fire E16", "src/compile.rs",
+  """                        if n == 0 {
+                            continue;
+                        }""",
+  """                        if n == 0 {
+                            return vec![0; ty.size_in_bits_for_defs(prg, circuit.const_sizes())];
+                        }""", "seed C14-l: x * 0 returns zero wires without lowering x")
+M("e16-quiet-zero-after-lowering", "C14", "quiet", "src/compile.rs",
+  """                        if n == 0 {
+                            continue;
+                        }""",
+  """                        if n == 0 {
+                            let _ = y.compile(prg, env, circuit);
+                            return vec![0; ty.size_in_bits_for_defs(prg, circuit.const_sizes())];
+                        }""", "behaviour-preserving up to panics of the product: the operand is lowered, then the zero shortcut is taken")
+M("s17-match-takes-first-clause-type", "C05", "fire S17", "src/check.rs",
+  """                if clauses.iter().all(|(_, body)| body.ty == first.ty) {
+                    expr.ty = first.ty.clone();
+                }""",
+  """                expr.ty = first.ty.clone();""", "seed C05-h: a re-typed match takes the type of its first clause regardless of the others")
+M("s17-quiet-if-ne-form", "C05", "quiet", "src/check.rs",
+  """            if then_expr.ty == else_expr.ty {
+                expr.ty = then_expr.ty.clone();
+            }""",
+  """            if then_expr.ty != else_expr.ty {
+                // the caller reports the mismatch
+            } else {
+                expr.ty = then_expr.ty.clone();
+            }""", "behaviour-preserving: the equality written with != and else")
+M("m6-number-covers-containing-range", "C08", "fire M6", "src/check.rs",
+  """            PatternEnum::NumSigned(n, _) if n == min && n == max => vec![tail.collect()],""",
+  """            PatternEnum::NumSigned(n, _) if (min..=max).contains(&n) => vec![tail.collect()],""", "seed C17-h (one arm): a signed number pattern covers every constructor range that contains it")
+M("m6-quiet-transitive-equality", "C08", "quiet", "src/check.rs",
+  """            PatternEnum::NumSigned(n, _) if n == min && n == max => vec![tail.collect()],""",
+  """            PatternEnum::NumSigned(n, _) if min == max && n == min => vec![tail.collect()],""", "behaviour-preserving: n == min == max written transitively")
+M("l8-ok-despite-recorded-error", "C09", "fire L8", "src/parse.rs",
+  """                Ok(literal) if parser.errors.is_empty() => Ok(literal),""",
+  """                Ok(literal) if parser.tokens.peek().is_none() => Ok(literal),""", "seed C09-h (shape): Ok does not depend on the recorded errors")
+M("s15-parties-by-division", "C05", "fire S15 S1", "src/compile.rs",
+  """            for _ in 0..*size {
+                let type_size = elem_ty.size_in_bits_for_defs(self, &const_sizes);""",
+  """            let total = param.ty.size_in_bits_for_defs(self, &const_sizes);
+            for _ in 0..*size {
+                let type_size = total / *size;""", "seed C05-i (shape): the bits of one party computed as total / number of elements")
 
